@@ -28,7 +28,7 @@ from plinio.cost import CostSpec, CostFn, params_bit
 from plinio.graph.inspection import shapes_dict
 from .graph import convert, mps_layer_map
 from .nn.module import MPSModule
-from .nn.qtz import MPSType
+from .nn.qtz import MPSType, MPSBaseQtz
 
 from .quant.quantizers import PACTAct, MinMaxWeight, QuantizerBias
 
@@ -237,11 +237,17 @@ class MPS(DNAS):
         :return: the precision-assignement found by the NAS
         :rtype: Dict[str, Dict[str, Any]]
         """
-        # convert() forces eval() on the seed: restore the training status afterwards
+        # convert() forces eval() on the seed and runs a forward pass on it (shape propagation), which
+        # re-samples the selection coefficients in eval mode: restore the training status and the
+        # coefficients sampled by the last forward pass afterwards, so that exporting does not change
+        # the cost read before the next forward pass
         training_status = {m: m.training for m in self.seed.modules()}
+        sampled = {m: m.theta_alpha for m in self.seed.modules() if isinstance(m, MPSBaseQtz)}
         mod, _, _ = convert(self.seed, self._input_example, 'export')
         for m, t in training_status.items():
             m.training = t
+        for m, t in sampled.items():
+            m.theta_alpha = t
         return mod
 
     def summary(self) -> Dict[str, Dict[str, Any]]:
